@@ -92,7 +92,7 @@ fn echoes(query: &Value, request: &Value) -> bool {
     }
 }
 
-fn item_of(queries: &HashMap<i64, Value>, resp: &Value) -> Value {
+pub fn item_of(queries: &HashMap<i64, Value>, resp: &Value) -> Value {
     let req = resp.get("request").cloned().unwrap_or(Value::Null);
     let qid = req.get("qid").and_then(|q| q.as_i64()).unwrap_or(-1);
     let (j, echo) = match queries.get(&qid) {
@@ -103,7 +103,7 @@ fn item_of(queries: &HashMap<i64, Value>, resp: &Value) -> Value {
     json!({"qid": qid, "j": j, "echo": echo, "sum": s})
 }
 
-const CSV_TOML: &str = "format = { type = \"csv\", sorted = $SORTED, mapping = { qid = \"request.qid\", dist = \"route.traversal_summary.distance\", time = \"route.traversal_summary.time\", err = { optional = \"error\" }, tot = { sum = [\"route.traversal_summary.distance\", \"route.traversal_summary.time\"] } } }";
+pub const CSV_TOML: &str = "format = { type = \"csv\", sorted = $SORTED, mapping = { qid = \"request.qid\", dist = \"route.traversal_summary.distance\", time = \"route.traversal_summary.time\", err = { optional = \"error\" }, tot = { sum = [\"route.traversal_summary.distance\", \"route.traversal_summary.time\"] } } }";
 
 fn gen_batch(r: &mut StdRng, n: usize) -> Value {
     let mut net = gen_scenario(r, &GenOpts { max_v: 8, focus: String::from("c06") });
@@ -157,7 +157,7 @@ fn gen_batch(r: &mut StdRng, n: usize) -> Value {
            "flush": flush, "queries": queries, "reps": 2, "energy": energy})
 }
 
-fn read_lines(path: &std::path::Path) -> Vec<String> {
+pub fn read_lines(path: &std::path::Path) -> Vec<String> {
     std::fs::read_to_string(path).map(|s| s.split_terminator('\n').map(|l| l.to_string()).collect()).unwrap_or_default()
 }
 
